@@ -22,7 +22,8 @@ func init() {
 			"(R5) every field of the request structs (base, baseQuery, Get, Scan, Mutate, CheckAndPut) that some constructor/option writes is read in the serialisation closure of the call types or is tabled as client-side-only with a reason; Get.ToProto and Scan.ToProto read the same query fields; " +
 			"(R6) every connection write in send happens with a mutex of the region client held (one frame - possibly several Write calls on a non-socket net.Conn - at a time); " +
 			"(R7) the hello is written before the connection goroutines start and write() has no other callers than sendHello and send; " +
-			"(R8) the compressor is applied, iff configured, to exactly the serialised blocks with their summed length, and the hello advertises the codec under the same condition. (R3, cell count/size agreement, is C10.R2.)",
+			"(R8) the compressor is applied, iff configured, to exactly the serialised blocks with their summed length, and the hello advertises the codec under the same condition. (R3, cell count/size agreement, is C10.R2.)" +
+			" Added after the seeded-change rounds: (R2) each region's cellblocks are appended in the same iteration (of the one loop over the grouping map) that emits its region action; (R6) every error send returns after it attempted a write is a ServerError (shared with C03.R6).",
 		Residue:   "byte-level equality with an independent decoder; order of map iteration in encodings; protobuf library correctness",
 		Technique: "linear-form agreement, value pairing through phis, field-coverage (writer => serialised reader) over the typed program, lock-set analysis",
 		Run:       runC05,
